@@ -145,6 +145,10 @@ def gen_scripts(prop, tier, rng):
         for _ in range(max(2, n // 12)):
             for kind in gen.KINDS:
                 S.append(gen.huge_history(rng, kind))
+        # long streams at a constant configuration
+        for _ in range(max(2, n // 12)):
+            for kind in gen.KINDS:
+                S.append(gen.long_history(rng, kind))
         if prop == "C04":
             # input_buffer_allocate / output_buffer_allocate at arbitrary history points
             for ops in S:
@@ -178,6 +182,9 @@ def gen_scripts(prop, tier, rng):
         for _ in range(n):
             for kind in gen.FFT:
                 S.append(gen.valid_history(rng, kind, 40, allow=("reset",)))
+        for _ in range(max(2, n // 8)):
+            for kind in gen.KINDS:
+                S.append(gen.long_history(rng, kind))
     elif prop == "C09":
         for _ in range(n):
             for kind in gen.KINDS:
